@@ -26,6 +26,23 @@ def run_worker_slice(tag, cases):
         if n >= len(cases):
             break
         # the worker died while processing case n
+        if p.returncode == 98:
+            # the 20 s watchdog: heavy but finite work is not a hang - run the case alone with a 10 min limit before saying so
+            spath, rpath = cpath + ".slow", opath + ".slow"
+            vlib.write_ndjson(spath, [cases[n]])
+            if os.path.exists(rpath):
+                os.remove(rpath)
+            p2 = subprocess.run(["sh", "-c", "ulimit -v 6291456; exec timeout 700 %s worker c01 %s %s --from 0" % (vlib.HARNESS, spath, rpath)], stdin=subprocess.DEVNULL,
+                                stdout=subprocess.DEVNULL, stderr=subprocess.PIPE, env=dict(vlib.env_offline(), BVH_WATCHDOG_MS="600000"))
+            got = vlib.read_ndjson(rpath) if os.path.exists(rpath) else []
+            if got:
+                got[0]["i"] = n
+                got[0]["slow"] = True
+                with open(opath, "a") as f:
+                    f.write(json.dumps(got[0]) + "\n")
+                done = n + 1
+                continue
+            p = p2
         crashes[n] = "worker exit status %s: %s" % (p.returncode, p.stderr.decode(errors="replace")[-300:].strip())
         with open(opath, "a") as f:
             f.write(json.dumps({"i": n, "src": ["<see case>"], "arity_problem": None, "events": [
@@ -113,11 +130,11 @@ def check(tier, seed, t0):
             "samples": [cases[0], cases[len(cases) // 2], texts[0], texts[1]],
             "states": rm.distinct + rc.distinct, "transitions": rm.generated, "traces_validated_against_impl": len(allc),
             "cases_per_kind": kinds, "stage_events": stages, "worker_crashes": len(crashes) if crashes else sum(1 for e in events if e.get("stage") == "process"),
-            "machine_action_counts": rm.coverage,
+            "machine_action_counts": rm.coverage, "slow_cases_rerun_alone": sum(1 for _, o in results if o.get("slow")),
             "tlc_wall_s": round(rm.wall + rc.wall + tr.wall, 1),
         },
         "assumptions": ["'all UTF-8 strings' is sampled; only the token-level fragment is exhaustive", "a worker killed by the address-space limit "
-                        "(6 GiB) or the timeout counts as an abort / hang of the case it was processing", "the release CLI itself is exercised by "
+                        "(6 GiB) counts as an abort; a case over 20 s is re-run alone and counts as a hang when it exceeds 10 min there", "the release CLI itself is exercised by "
                         "C18 / C19 / C06; here the library, the WASM driver (natively) and the formatter are driven in process"],
     }
     return v.finish(ev, t0)
